@@ -175,6 +175,20 @@ def run_proc_on_file(exe, inp, outp, timeout):
     return p
 
 
+def answer_lines_patient(exe, lines, timeout=180):
+    """the same with a 30 s per-request watchdog: used to re-ask a request that was answered `timeout` / `died` / `skipped` in a
+    loaded run (a request that really hangs or aborts does so again)"""
+    old = os.environ.get("ULH_TIMEOUT_MS")
+    os.environ["ULH_TIMEOUT_MS"] = "30000"
+    try:
+        return answer_lines(exe, lines, timeout=timeout)
+    finally:
+        if old is None:
+            os.environ.pop("ULH_TIMEOUT_MS", None)
+        else:
+            os.environ["ULH_TIMEOUT_MS"] = old
+
+
 def answer_lines(exe, lines, timeout=120):
     """Runs one process on a small list of request lines (used by shrinking / replay)."""
     if exe != DRIVER:
